@@ -9,6 +9,7 @@ CONSTANTS
  FixNifty = TRUE
  AtomicAdopt = TRUE
  RefreshExpected = TRUE
+ ReleaseLast = TRUE
 INVARIANT NoShare
 INVARIANT OwnedInUse
 INVARIANT Reclaimed
